@@ -596,6 +596,15 @@ def twins(repo):
     return out
 
 
+def round11_mutants():
+    """sa/selftest/round11_mutants/*.diff: the idioms of the agent-written twins (helper extraction, dispatch tables, reduce, chained ranges, zip-paired
+    lists, single-exit memo, early-return variants) written *wrongly*: what the lowering and the new readers let through must still be judged"""
+    out = []
+    for p in sorted(glob.glob(os.path.join(VERIF, 'sa', 'selftest', 'round11_mutants', '*.diff'))):
+        out.append({'id': 'r11-%s' % os.path.basename(p)[:-5], 'kind': 'mutant', 'patch': p})
+    return out
+
+
 def agent_twins():
     """twins/<area>-Rxx/patch.diff: behaviour-preserving refactorings written by independent sub-agents (round 11), each verified there by the pinned
     suite and a differential test.  Those that tools/run_twins.py found silent (twins/RESULTS.json) must stay silent; the others are listed in DESIGN.md
@@ -677,7 +686,7 @@ def variants(repo, discover=False):
     """discover=True: every mutant is run against every property (used to build expected.json)"""
     exp = expected()
     out = []
-    for v in reversed_fixes() + seeded() + generated(repo):
+    for v in reversed_fixes() + seeded() + round11_mutants() + generated(repo):
         if discover:
             v['props'] = list(ALL)
             out.append(v)
